@@ -160,25 +160,27 @@ class IntegralGenerator:
         parts += self.generate_geometry_tables()
 
         # Loop generation code will produce parts to go before
-        # quadloops, to define the quadloops, and to go after the
-        # quadloops
-        all_preparts = []
-        all_quadparts = []
+        # quadloops and to define the quadloops
+        rules = [rule for cell, rule in self.ir.expression.integrand.keys() if domain == cell]
+        for rule in rules:
+            # An expression is piecewise constant only with respect to
+            # the tables of one rule (a table can be constant over the
+            # points of one rule and vary over the points of another),
+            # so piecewise values are never shared between rules
+            self.scopes[(None, None)] = {}
 
-        # Pre-definitions are collected across all quadrature loops to
-        # improve re-use and avoid name clashes
-        for cell, rule in self.ir.expression.integrand.keys():
-            if domain == cell:
-                # Generate code to compute piecewise constant scalar factors
-                all_preparts += self.generate_piecewise_partition(rule, cell)
+            # Generate code to compute piecewise constant scalar factors
+            preparts = list(self.generate_piecewise_partition(rule, domain))
 
-                # Generate code to integrate reusable blocks of final
-                # element tensor
-                all_quadparts += self.generate_quadrature_loop(rule, cell)
+            # Generate code to integrate reusable blocks of final
+            # element tensor
+            quadparts = self.generate_quadrature_loop(rule, domain)
 
-        # Collect parts before, during, and after quadrature loops
-        parts += all_preparts
-        parts += all_quadparts
+            if len(rules) == 1:
+                parts += preparts + quadparts
+            else:
+                # One block per rule avoids name clashes of the definitions
+                parts += [L.Section(f"Quadrature rule {rule.id()}", preparts + quadparts, [])]
 
         return L.StatementList(parts)
 
